@@ -17,7 +17,7 @@ from harness import common, tlc
 
 common.setup_repo_path()
 
-LAWS = ['GetAfterSet', 'Frame', 'FrameMissingStaysMissing', 'SetCurrentIsIdentity', 'SkipIsIdentity',
+LAWS = ['GetAfterSet', 'SelfEndIsThePath', 'Frame', 'FrameMissingStaysMissing', 'SetCurrentIsIdentity', 'SkipIsIdentity',
         'SelfReplaces', 'LeavesReadBack', 'ApplyMapsLeaves']
 
 
